@@ -13,12 +13,21 @@
 //! * API calls: what they do to the commit buffer (select: overflow or untouched; the others untouched;
 //!   ack / clear: emptied).
 //!
-//! Character counts are "one character per symbol" EXCEPT for a syllable the dictionary has no word for: every
-//! engine shows it as its Bopomofo spelling (1..4 characters for one symbol: F30 for the simple engine, the
-//! fallback edge of 43e8036 for the others).  The intervals of the conversion the step committed tell which
-//! symbols are shown that way (`spelling_extra`); the ledger and the conservation check count such an interval
-//! as ONE symbol, the check "display after auto-commit has one character per symbol" is evaluated only when
-//! every remaining syllable has a word (`c02_display_checks_skipped_wordless` otherwise).
+//! Character counts: the conservation law that holds (and that Props/C02.lean proves: `history_ledger*` for states
+//! with a word per syllable) is  committed characters = Σ over the committed symbols of (1 for a symbol shown as one
+//! character, |spelling| for a syllable the dictionary has no word for).  Every engine shows such a syllable as its
+//! Bopomofo spelling (1..4 characters for one symbol: F30 for the simple engine, the fallback of d6d8fbe / 43e8036 for
+//! the others); it gets into the buffer when its only word is forgotten (`unlearn`) or the engine is switched while it
+//! is buffered.  The spelling need not be an interval of its own: `glue_fn` merges it with a neighbour across a glue
+//! gap and a forced selection is taken as it is, so the oracle deals the text of EVERY committed interval to the
+//! symbols it covers (`interval_extra`: one character, or the syllable's own spelling, per symbol).  The intervals are
+//! those the engine answered DURING the step for the buffer before anything was removed (whole commit: the conversion
+//! the commit rendered = `display()` before; overflow: the full buffer at overflow time), never the state after the
+//! operation.  The running per-session ledger counts symbols, with the same allowance (`extra`).  For operations that
+//! insert nothing the allowance is granted only when C01's class predicate held BEFORE the operation (`note_spelled`):
+//! in an ordinary state the count stays strictly one character per symbol.  The check "display after auto-commit has
+//! one character per symbol" is evaluated only when every remaining syllable has a word
+//! (`c02_display_checks_skipped_wordless` otherwise).
 use crate::step::*;
 use chewing::editor::keyboard::KeyCode;
 use std::cell::RefCell;
@@ -71,6 +80,8 @@ struct Stats {
     spelled_commits: u64,
     spelled_extra_chars: u64,
     display_checks_skipped_wordless: u64,
+    spelled_inside_longer_interval: u64,
+    spelled_without_wordless_prestate: u64,
 }
 
 /// running ledger of the current session: characters emitted so far, characters accepted so far
@@ -145,26 +156,81 @@ fn nchars(s: &str) -> usize {
     s.chars().count()
 }
 
-/// characters a committed path shows BEYOND one per symbol: one-symbol intervals whose text is the Bopomofo
-/// spelling of their syllable (a syllable without a word)
-fn spelling_extra(path: &[chewing::conversion::Interval], syms: &[String]) -> usize {
-    let extra: usize = path
+/// The accounting of one interval: its text is one PIECE per symbol it covers, in order; a piece is one character
+/// (a word's character, a selection's character, the symbol itself) or — for a syllable — the syllable's Bopomofo
+/// spelling (how every engine shows a syllable it finds no word for: 1..4 characters).  The engines merge neighbouring
+/// intervals across a glue gap and take a forced selection as it is, so a spelled syllable may sit INSIDE an interval
+/// of several symbols.  `Some(extra)` = such a decomposition exists and spends `extra` characters beyond one per
+/// symbol (for one interval every decomposition spends the same: characters − symbols); `None` = the text cannot be
+/// dealt out to the symbols that way: characters were lost or invented.
+fn interval_extra(iv: &chewing::conversion::Interval, syms: &[String]) -> Option<usize> {
+    let text: Vec<char> = iv.str.chars().collect();
+    let covered = syms.get(iv.start..iv.end)?;
+    let spellings: Vec<Option<Vec<char>>> = covered
         .iter()
-        .filter(|iv| iv.end == iv.start + 1)
-        .filter_map(|iv| {
-            let code: u16 = syms.get(iv.start)?.strip_prefix('s')?.parse().ok()?;
-            let spelled = chewing::zhuyin::Syllable::try_from(code).ok()?.to_string();
-            (spelled == *iv.str).then(|| nchars(&spelled).saturating_sub(1))
+        .map(|s| {
+            let code: u16 = s.strip_prefix('s')?.parse().ok()?;
+            Some(chewing::zhuyin::Syllable::try_from(code).ok()?.to_string().chars().collect())
         })
-        .sum();
+        .collect();
+    // reach[i] = positions of `text` at which the pieces of the first i symbols can end
+    let mut reach: Vec<usize> = vec![0];
+    for sp in &spellings {
+        let mut next: Vec<usize> = vec![];
+        for &p in &reach {
+            if p < text.len() {
+                next.push(p + 1);
+            }
+            if let Some(sp) = sp {
+                if !sp.is_empty() && text[p..].starts_with(sp) {
+                    next.push(p + sp.len());
+                }
+            }
+        }
+        next.sort();
+        next.dedup();
+        reach = next;
+    }
+    reach.contains(&text.len()).then(|| text.len() - covered.len())
+}
+
+/// characters a committed path shows BEYOND one per symbol (`interval_extra` summed); `Err(i)` = interval `i` of the
+/// path does not deal one piece to each of its symbols
+fn spelling_extra(path: &[chewing::conversion::Interval], syms: &[String]) -> Result<usize, usize> {
+    let mut extra = 0usize;
+    for (i, iv) in path.iter().enumerate() {
+        extra += interval_extra(iv, syms).ok_or(i)?;
+    }
     if extra > 0 {
         STATS.with(|s| {
             let mut s = s.borrow_mut();
             s.spelled_commits += 1;
             s.spelled_extra_chars += extra as u64;
+            if path.iter().any(|iv| iv.end > iv.start + 1 && interval_extra(iv, syms).is_some_and(|e| e > 0)) {
+                s.spelled_inside_longer_interval += 1;
+            }
         });
     }
-    extra
+    Ok(extra)
+}
+
+/// The allowance is for word-less syllables only.  An operation that inserts nothing (Enter, `commit()`, `select(n)`)
+/// commits what was in the buffer before: a spelling among it is accepted only if the class predicate of C01 (some
+/// buffered syllable has no word under a strategy in force, evaluated on the dictionaries themselves) held in the
+/// state BEFORE the operation — in an ordinary state the count is strictly one character per symbol.  A key that
+/// inserts a syllable may bring the word-less syllable itself (entered under the option's strategy, converted under
+/// the engine's): counted (`c02_wordless_spelling_without_wordless_prestate`), not judged.
+fn note_spelled(out: &mut Out, st: &Step, extra: usize, inserting: bool) {
+    if extra > 0 && st.no_word_pre.is_none() {
+        if inserting {
+            STATS.with(|s| s.borrow_mut().spelled_without_wordless_prestate += 1);
+        } else {
+            fail(out, st, &format!(
+                "characters not conserved: {} characters beyond one per symbol committed as the spelling of word-less syllables, but every buffered syllable had a word before the operation",
+                extra
+            ));
+        }
+    }
 }
 
 /// returns the characters of the commit string beyond one per symbol (`spelling_extra` of the committed path)
@@ -192,10 +258,27 @@ fn whole_commit(out: &mut Out, st: &Step, by_key: bool) -> usize {
     }
     let nth: usize = misc(st.pre)[2].parse().unwrap();
     let (_, breaks, nsel) = parse_comp(comp_part(st.pre));
+    // which symbols the pre-edit showed as a spelling: from the intervals of the conversion the commit rendered (the
+    // first conversion call of the step: composition and dictionary are still those of the state before; its text is
+    // what `display()` answered before the operation, checked above)
     let extra = match st.conv.first() {
-        Some((_, comp, paths)) if !paths.is_empty() => spelling_extra(&paths[nth % paths.len()], &parse_comp(comp).0),
+        Some((_, comp, paths)) if !paths.is_empty() => {
+            let path = &paths[nth % paths.len()];
+            match spelling_extra(path, &parse_comp(comp).0) {
+                Ok(e) => e,
+                Err(i) => {
+                    fail(out, st, &format!(
+                        "characters not conserved by a whole-buffer commit: interval {}..{} reads {}, which is not one character (or the spelling of a word-less syllable) for each of its symbols",
+                        path[i].start, path[i].end, hx(&path[i].str)
+                    ));
+                    // (the ledger goes on from the symbol count: one defect, one report)
+                    nchars(st.commit_post).saturating_sub(st.len_pre)
+                }
+            }
+        }
         _ => 0,
     };
+    note_spelled(out, st, extra, false);
     STATS.with(|s| {
         let mut s = s.borrow_mut();
         if by_key { s.whole_commits_key += 1 } else { s.whole_commits_api += 1 }
@@ -298,7 +381,19 @@ fn auto_commit(out: &mut Out, st: &Step, by_key: bool) -> (Option<usize>, usize)
     if remove > n_full || rest.len() != n_full - remove || rest.iter().zip(full_syms[remove.min(n_full)..].iter()).any(|(a, b)| *a != b.as_str()) {
         fail(out, st, &format!("remaining symbols are not the full buffer minus the {} symbols under the committed text", remove));
     }
-    let extra = spelling_extra(&path[..k], &full_syms);
+    // which of the pushed-out symbols are shown as a spelling: from the intervals of the engine's answer for the full
+    // buffer (asked during the step, before anything was removed), never from the state after the operation
+    let extra = match spelling_extra(&path[..k], &full_syms) {
+        Ok(e) => e,
+        Err(i) => {
+            fail(out, st, &format!(
+                "characters not conserved: committed interval {}..{} reads {}, which is not one character (or the spelling of a word-less syllable) for each of its symbols",
+                path[i].start, path[i].end, hx(&path[i].str)
+            ));
+            nchars(&want).saturating_sub(remove)
+        }
+    };
+    note_spelled(out, st, extra, by_key && !matches!(st.key, Some(ev) if ev.code == KeyCode::Tab));
     if nchars(got) != remove + extra || remove + rest.len() != n_full {
         fail(out, st, &format!("characters not conserved: {} committed ({} of them spelling of word-less syllables beyond one per symbol) + {} remaining != {} before", nchars(got), extra, rest.len(), n_full));
     }
@@ -556,5 +651,7 @@ pub fn stats(out: &mut Out) {
         out.stat("c02_commits_with_wordless_spelling", s.spelled_commits);
         out.stat("c02_wordless_spelling_extra_chars", s.spelled_extra_chars);
         out.stat("c02_display_checks_skipped_wordless", s.display_checks_skipped_wordless);
+        out.stat("c02_wordless_spelling_inside_longer_interval", s.spelled_inside_longer_interval);
+        out.stat("c02_wordless_spelling_without_wordless_prestate", s.spelled_without_wordless_prestate);
     });
 }
